@@ -155,6 +155,10 @@ func vfRunScenario(t *testing.T, rec *vfRec, sc map[string]any) {
 
 	sessions := map[string]*vfSession{}
 	var wg sync.WaitGroup
+	var (
+		dialAt    = map[string]time.Time{}
+		dialBurst = map[string]int{}
+	)
 	for idx, n := range names {
 		n := n
 		ifc := parsed.Interfaces[idx]
@@ -171,6 +175,18 @@ func vfRunScenario(t *testing.T, rec *vfRec, sc map[string]any) {
 				res, _ = dials[ndial].(string)
 			}
 			ndial++
+			// The Dialer re-dials at once after a recoverable task error and backs off only between failed dial
+			// attempts, so a fault that persists (an armed write failure hitting every initial RA) would loop
+			// without virtual time ever advancing. The environment answers the 4th successful dial within one
+			// instant with "link not ready", which makes the Dialer wait and hands control back to the scenario.
+			if now := time.Now(); !now.Equal(dialAt[n]) {
+				dialAt[n], dialBurst[n] = now, 0
+			}
+			if res == "ok" {
+				if dialBurst[n]++; dialBurst[n] > 3 {
+					res = "lnr"
+				}
+			}
 			dialMu.Unlock()
 			if res != "ok" {
 				rec.emit("dial", "ifi", n, "k", 0, "res", res)
